@@ -23,6 +23,12 @@ type webTransport struct {
 	session *types.WebTransportConn
 	mu      sync.Mutex
 	reading sync.Once
+
+	// sending and closePending (guarded by stateMu) let DoClose leave the
+	// connection open until a batch that is still being written is out
+	stateMu      sync.Mutex
+	sending      bool
+	closePending bool
 }
 
 // WebTransport transport
@@ -132,11 +138,23 @@ func (w *webTransport) onMessage(data types.BufferInterface) {
 // Writes a packet payload.
 func (w *webTransport) Send(packets []*packet.Packet) {
 	w.SetWritable(false)
+	w.stateMu.Lock()
+	w.sending = true
+	w.stateMu.Unlock()
 	go w.send(packets)
 }
 func (w *webTransport) send(packets []*packet.Packet) {
 	vhook.Yield("wt.send.start")
 	defer func() {
+		w.stateMu.Lock()
+		w.sending = false
+		closeNow := w.closePending
+		w.stateMu.Unlock()
+		if closeNow {
+			// DoClose ran while this batch was being written
+			w.session.CloseWithError(0, "")
+		}
+
 		w.Emit("drain")
 		w.SetWritable(true)
 		w.Emit("ready")
@@ -238,7 +256,17 @@ func (w *webTransport) write(data types.BufferInterface, _ bool) {
 // Closes the transport.
 func (w *webTransport) DoClose(fn types.Callable) {
 	wt_log.Debug(`closing WebTransport session`)
-	defer w.session.CloseWithError(0, "")
+	defer func() {
+		w.stateMu.Lock()
+		if w.sending {
+			// the writer goroutine still holds a batch: it closes the session when it is done
+			w.closePending = true
+			w.stateMu.Unlock()
+			return
+		}
+		w.stateMu.Unlock()
+		w.session.CloseWithError(0, "")
+	}()
 	if fn != nil {
 		fn()
 	}
